@@ -173,10 +173,16 @@ def record_lens(task):
         call = {"entry": "trace_generic", "Hx": Hx, "Hy": Hy, "w": w, "Px": list(map(float, Px)), "Py": list(map(float, Py))}
         try:
             with np.errstate(all="ignore"):
+                # (a coordinate that is exactly 0 is also passed as a Python int or an integer array in
+                # a third of the lenses: the same request)
+                hx = Hx
+                if Hx == 0.0 and seed % 3 == 1:
+                    hx = 0
                 if c == 0:
-                    rays = G.quiet(o.trace_generic, Hx, Hy, Px.copy(), Py.copy(), w)
+                    rays = G.quiet(o.trace_generic, hx, Hy, Px.copy(), Py.copy(), w)
                 else:       # all-array form
-                    rays = G.quiet(o.trace_generic, np.full(len(Px), Hx), np.full(len(Px), Hy), Px.copy(), Py.copy(), w)
+                    hxa = np.zeros(len(Px), dtype=int) if (Hx == 0.0 and seed % 3 == 2) else np.full(len(Px), Hx)
+                    rays = G.quiet(o.trace_generic, hxa, np.full(len(Px), Hy), Px.copy(), Py.copy(), w)
         except Exception as ex:
             out["error"] = "trace_generic: %s: %s" % (type(ex).__name__, ex)
             out["call"] = call
@@ -273,6 +279,15 @@ def sampling_events(rnd, quick):
             d = LR.make_distribution(name, seed=n)       # ('random': seeded, so that the record is reproducible)
             d.generate_points(n)
             evs.append(LR.dist_event(name, n, d.x, d.y))
+    # every ray count up to a few hundred, number of points only (a count that depends on floating-point
+    # rounding goes wrong for a few per cent of the counts, none of them small)
+    for name in NAMED:
+        if name == "uniform":
+            continue          # (its documented count is an enumeration of the grid: judged for the small n above)
+        for n in range(27 if quick else 65, 301 if quick else 1001):
+            d = LR.make_distribution(name, seed=n)
+            d.generate_points(n if name != "hexapolar" else min(n, 60))
+            evs.append(LR.dist_event(name, n if name != "hexapolar" else min(n, 60), [], [], cnt=len(d.x), pts=False))
     for name in GQ:
         for n in range(1, 7):
             d = LR.make_distribution(name)
